@@ -499,7 +499,8 @@ class MCMultiDatasetSignalGenerator(
             **kwargs)
 
         if valid_event_field_ranges_dict_list is None:
-            valid_event_field_ranges_dict_list = [dict()]*len(self.dataset_list)
+            valid_event_field_ranges_dict_list = [
+                dict() for _ in range(len(self.dataset_list))]
         if not isinstance(valid_event_field_ranges_dict_list, list):
             raise TypeError(
                 'The `valid_event_field_ranges_dict_list` argument must be a list.'
